@@ -14,6 +14,7 @@ import Driver.Serde
 import Driver.DataType
 import Driver.Query
 import Driver.Dml
+import Driver.Ddl
 /-! Model driver: one request per line `op \t arg …`, one answer per line. -/
 namespace Driver
 
@@ -38,6 +39,7 @@ def dispatch (line : String) : String :=
   | "dtprint" :: args => DTyD.handlePrint args
   | "queries" :: args => Qr.handleQueries args
   | "dml" :: args => Dm.handleDml args
+  | "ddl" :: args => Dd.handleDdl args
   | _ => "bad-op"
 
 partial def loop (h : IO.FS.Stream) (out : IO.FS.Stream) : IO Unit := do
